@@ -1038,6 +1038,8 @@ def do_attributes(part, start, end):
                     )
             elif isinstance(o, score.Staff):
                 staff_e = etree.SubElement(attr_e, "staff-details")
+                if o.number and o.number != 1:
+                    staff_e.set("number", "{}".format(o.number))
                 if o.lines:
                     etree.SubElement(staff_e, "staff-lines").text = "{}".format(o.lines)
 
